@@ -18,7 +18,8 @@ ID = "C07"
 TRUSTED = ["CPython repr(float)/float(str) round trip and the character set of repr (checked on every probability on disk)",
            "codecs encode/decode of the ruleset encoding; configparser and json for config.ini",
            "str.splitlines / str.rstrip / int(): probed over all code points on every run, compared with the model on every file"]
-ASSUMES = ["C07_roundtrip_*: values contain no TAB and no code point the line iteration splits on (safe_value); this follows from "
+ASSUMES = ["alpha values are the lower-cased segment: str.lower() never yields a TAB or a line break from other characters (swept on every run)",
+           "C07_roundtrip_*: values contain no TAB and no code point the line iteration splits on (safe_value); this follows from "
            "check_valid when C07_linebreaks_rejected holds, because segments are substrings of accepted passwords",
            "C07_roundtrip_guesser / _scorer: probabilities are finite and >= 0; repr/float are inverse and repr yields only float characters",
            "C07_roundtrip_omen_*: levels in 0..10; the reader decodes with the encoding the writer used (side condition "
@@ -119,6 +120,19 @@ def oracle(rec, rep):
             if got != want:
                 vio.append({"sig": "C07:omen-guesser-differs:" + nm + ctag, "what": "guesser omen_grammar[%r] differs from the trainer's tables" % nm,
                             "replay": rep})
+        # ... and with what is on disk (independent parse: split at LF bytes and at the last TAB)
+        for folder, letter, attr in TERMINALS:
+            for rel in sorted(f for f in tree if f.startswith(folder + "/")):
+                name = letter + rel.split("/")[1].split(".")[0]
+                try:
+                    disk = [(vs, float(p)) for vs, p in T.group_lines(T.parse_rule_file(tree[rel], enc))]
+                except Exception:      # noqa: BLE001
+                    continue
+                got = [(list(x["values"]), x["prob"]) for x in g.grammar.get(name, [])]
+                if got != disk:
+                    vio.append({"sig": "C07:guesser-differs-from-disk" + ctag, "what": "guesser grammar[%r] = %r, %s holds %r" % (name, got[:3], rel, disk[:3]),
+                                "replay": rep})
+                    break
     # ---- scorer
     s, ok, serr = T.load_scorer(rd)
     if not ok:
@@ -449,6 +463,11 @@ def run(ctx):
         ("omeng", "omen_guesser_case", "check_omen_guesser", G["omeng"]),
         ("omens", "omen_scorer_case", "check_omen_scorer", G["omens"]),
         ("cfg", "list (N * list (str * N)) * list str", "check_config_lists", G["cfg"])], per=60)
+    # lower-casing (alpha values are stored lower-cased) cannot create a TAB or a line break: sweep of the interpreter
+    lbt = set(C["linebreak"]) | {9}
+    bad_lower = [c for c in range(0x110000) if c not in lbt and any(ord(d) in lbt for d in chr(c).lower())]
+    corr.append(("probe:lower-keeps-values-safe", not bad_lower,
+                 "str.lower() of %s yields a TAB / line break" % cps(bad_lower[:5]) if bad_lower else "all 0x110000 code points"))
     # the side conditions of Props/C07.v, spelled out for the evidence
     rej = set(C["rejected"])
     accepted_lb = [c for c in C["linebreak"] if c not in rej]
